@@ -409,7 +409,9 @@ Definition pstep (g : config) (s : pstate) (l : label) : option pstate :=
     let cause_ok := if ctxerr then (match k_ctx c with CtxDeadline => k_done c | _ => false end) else true in
     if failing && cause_ok then
       let e := if ctxerr then ECtx else EConn in
-      let s1 := do_background (latch s e true) in
+      (* the connection is closed: what was in flight is lost, and the failed read left no complete
+         frame in the bufio.Reader for the background reader to find *)
+      let s1 := do_background (set_wire (latch s e true) [] []) in
       Some (set_call s1 t (with_pc (with_res c (errs_for c e)) (PDecr true)))
     else None
   | LErr t =>
@@ -528,7 +530,7 @@ Definition pstep (g : config) (s : pstate) (l : label) : option pstate :=
   | LSrvPush m =>
     (* an out-of-band push; the RESP2 array form only exists on a subscribed connection, i.e. after
        the background loops were started *)
-    if p_conn s && free_push (g_r2ps g) m && (N.eqb (m_typ m) t_push || negb (N.eqb (p_st s) 0))
+    if p_conn s && free_push (g_r2ps g) m && (N.eqb (m_typ m) t_push || p_bg s)
     then Some (set_wire s (p_c2s s) (p_s2c s ++ [m])) else None
   (* ---- _backgroundRead ---- *)
   | LRStep =>
